@@ -91,7 +91,10 @@ def run(ctx):
                 'distinct flat texts')
     en_atoms = gen_cat.en_atoms() + [Atom('.'), Atom('LRB'), Atom('Σ', UnaryFeature('φ')), Atom('N', UnaryFeature('num')),
                                       # features spelled like the punctuation categories (CCGbank's X[conj])
-                                      Atom('NP', UnaryFeature('conj')), Atom('S', UnaryFeature('LRB')), Atom('N', UnaryFeature('RRB'))]
+                                      Atom('NP', UnaryFeature('conj')), Atom('S', UnaryFeature('LRB')), Atom('N', UnaryFeature('RRB')),
+                                      # one-part features that contain a comma or an equals sign, but not both
+                                      Atom('S', UnaryFeature('a,b,c')), Atom('NP', UnaryFeature('x,y')), Atom('N', UnaryFeature('k=v')),
+                                      Atom('S', UnaryFeature('p,q,r,s')), Atom('PP', UnaryFeature('a=b=c'))]
     ja_atoms = gen_cat.ja_atoms(small=True)
     uni = gen_cat.universe(en_atoms, 2) + gen_cat.universe(ja_atoms, 2)
     uni3 = gen_cat.universe(gen_cat.en_atoms(bases=['S', 'NP', ','], feats=[None, 'X', 'dcl']), 3) \
